@@ -135,6 +135,48 @@ theorem child_extends_parent_header (v0 : View) (l : List Step) (hc : Chain v0 l
       rw [hts] at h6 h7
       exact ⟨h4, h6, h7, by omega, h8⟩
 
+/-- the four conditions in ordinary arithmetic, child `c` against the parent block `p`'s header -/
+def ExtendsNat (p c : Step) : Prop :=
+  c.block.height = p.block.height + 1 ∧
+  p.block.ts + (c.env.rules c.block.ts).minBlockGap ≤ c.block.ts ∧
+  (c.block.numTxs = 0 → p.block.ts + (c.env.rules c.block.ts).minEmptyBlockGap ≤ c.block.ts) ∧
+  c.block.ts ≤ c.env.now + (futureBoundMs : Int) ∧
+  c.block.stateRoot = p.view.root
+
+/-- machine-integer side conditions under which the wrapped comparisons are the ordinary ones:
+parent height + 1 is a `uint64`, parent header timestamp + either gap is an `int64` -/
+def NoWrap (p c : Step) : Prop :=
+  p.block.height + 1 < 18446744073709551616 ∧
+  InI64 (p.block.ts + (c.env.rules c.block.ts).minBlockGap) ∧
+  InI64 (p.block.ts + (c.env.rules c.block.ts).minEmptyBlockGap)
+
+theorem extends_nat_of_extends (p c : Step) (h : Extends p c) (hn : NoWrap p c) : ExtendsNat p c := by
+  obtain ⟨h1, h2, h3, h4, h5⟩ := h
+  obtain ⟨n1, n2, n3⟩ := hn
+  unfold addI64 at h2 h3
+  rw [wrapI64_id _ n2] at h2
+  rw [wrapI64_id _ n3] at h3
+  exact ⟨by omega, by omega, fun h0 => by have := h3 h0; omega, h4, h5⟩
+
+theorem adjacent_imp {R S : Step → Step → Prop} {T : Step → Step → Prop} :
+    ∀ (l : List Step), Adjacent R l → Adjacent T l → (∀ a b, R a b → T a b → S a b) →
+      Adjacent S l
+  | [], _, _, _ => trivial
+  | [_], _, _, _ => trivial
+  | a :: b :: rest, hR, hT, h =>
+    ⟨h a b hR.1 hT.1, adjacent_imp (b :: rest) hR.2 hT.2 h⟩
+
+/-- **C11 (statement in ordinary arithmetic, every non-genesis parent)** — in a verified chain
+whose consecutive headers do not hit the machine-integer limits (`NoWrap`: height below
+`2^64 − 1`, parent header timestamp + gap within `int64` — e.g. any chain whose verifiers'
+clocks are below `2^62` ms and whose gaps are below `2^62`), every block satisfies, against its
+predecessor's *header*: `height = parent height + 1`, `timestamp ≥ parent timestamp +
+MinBlockGap`, `timestamp ≥ parent timestamp + MinEmptyBlockGap` when it has no transactions,
+`timestamp ≤ now + FutureBound`, `StateRoot` = parent post-state root. -/
+theorem child_extends_parent_header_natural (v0 : View) (l : List Step) (hc : Chain v0 l)
+    (hwf : ∀ s ∈ l, s.block.WF) (hnw : Adjacent NoWrap l) : Adjacent ExtendsNat l :=
+  adjacent_imp l (child_extends_parent_header v0 l hc hwf) hnw extends_nat_of_extends
+
 /-- every block of a verified chain passed the future-bound check -/
 theorem chain_not_late (v0 : View) (l : List Step) (hc : Chain v0 l) :
     ∀ s ∈ l, s.block.ts ≤ s.env.now + (futureBoundMs : Int) := by
@@ -266,6 +308,14 @@ theorem genesis_view_is_committed_state (root : (Bytes → Option Bytes) → Nat
   · simp [genesisView, h2, h3, h4, hr]
   · simp [genesisBlock, hh]
 
+/-- the fee value committed at genesis is a complete fee-manager state, so the first block's
+`ComputeNext` cannot hit the truncated-state panic -/
+theorem genesis_fee_ok (prices : List Nat)
+    (h : prices.length = HyperModel.Generated.C27.feeDimensions) : FeeOk (feeBytes prices) := by
+  right
+  rw [C27.feeBytes_length prices h]
+  exact Nat.le_refl _
+
 /-! ### builder -/
 
 /-- the builder's timestamp logic agrees with the verifier's: a header the builder produces
@@ -277,7 +327,7 @@ theorem builder_header_passes (now : Int) (rules : Int → Rules) (parent : Bloc
     (hb : buildHeader now rules parent n = .ok (h, t))
     (hwf : parent.WF) (hpts : InI64 pts) (hle : pts ≤ parent.ts)
     (hH : p.heightRaw = some (be64 parent.height)) (hT : p.tsRaw = some (be64 (toU64 pts)))
-    (hF : p.feeRaw.isSome = true)
+    (hF : ∃ raw, p.feeRaw = some raw ∧ FeeOk raw)
     (hg1 : InI64 (parent.ts + (rules now).minBlockGap)) (hg2 : InI64 (pts + (rules now).minBlockGap))
     (he1 : InI64 (parent.ts + (rules now).minEmptyBlockGap))
     (he2 : InI64 (pts + (rules now).minEmptyBlockGap)) :
@@ -297,7 +347,7 @@ theorem builder_header_passes (now : Int) (rules : Int → Rules) (parent : Bloc
   unfold addI64 at hearly hempty
   rw [wrapI64_id _ hg1] at hearly
   rw [wrapI64_id _ he1] at hempty
-  obtain ⟨fraw, hfraw⟩ := Option.isSome_iff_exists.mp hF
+  obtain ⟨fraw, hfraw, hfok⟩ := hF
   have hph : parseU64 (be64 parent.height) = some parent.height :=
     parseU64_be64 _ (by have := hwf.1; simp only [maxU64]; omega)
   have hpt : parseU64 (be64 (toU64 pts)) = some (toU64 pts) := parseU64_be64 _ (toU64_le _)
@@ -308,7 +358,7 @@ theorem builder_header_passes (now : Int) (rules : Int → Rules) (parent : Bloc
   have h2 : ¬ (n = 0 ∧ now < pts + (rules now).minEmptyBlockGap) := by
     intro ⟨h0, hlt⟩; exact hempty ⟨h0, by omega⟩
   simp only [h1, h2, if_false]
-
+  rw [if_pos hfok]
 
 /-- **C11 (builder emits only extending blocks)** — for *every* mempool content, whatever the
 builder drops on the way: if `BuildBlock` hands out a block, that block satisfies the four
@@ -381,7 +431,7 @@ theorem built_block_passes_block_context (now : Int) (rules : Int → Rules) (pa
     (hb : buildBlock now rules parent parentRoot mempool = .ok b)
     (hwf : parent.WF) (hpts : InI64 pts) (hle : pts ≤ parent.ts)
     (hH : p.heightRaw = some (be64 parent.height)) (hT : p.tsRaw = some (be64 (toU64 pts)))
-    (hF : p.feeRaw.isSome = true)
+    (hF : ∃ raw, p.feeRaw = some raw ∧ FeeOk raw)
     (hg1 : InI64 (parent.ts + (rules now).minBlockGap)) (hg2 : InI64 (pts + (rules now).minBlockGap))
     (he1 : InI64 (parent.ts + (rules now).minEmptyBlockGap))
     (he2 : InI64 (pts + (rules now).minEmptyBlockGap)) :
